@@ -156,6 +156,7 @@ def s6(ctx, rep, clause="S6"):
 
 def run(ctx, rep, tier="quick"):
     c01.s5(ctx, rep, clause="S1")
+    c01.s5b(ctx, rep, clause="S1")
     c01.s6(ctx, rep, clause="S1")
     s2(ctx, rep)
     s3(ctx, rep)
@@ -164,6 +165,23 @@ def run(ctx, rep, tier="quick"):
     s6(ctx, rep)
     # S4 (cont.): the black list the model-based searchers exclude from is pending ∪ failed ∪ observed, and the failed
     # trials are never filtered out of it again (shared with C06-S5)
+    from .common import require_guard, call_nodes
+    oe = ctx.P.method("TrialSchedulerWithSearcher", "on_trial_error")
+    nodes = [n for n, c in call_nodes(ctx, oe, lambda c: fn_name(c) == "evaluation_failed")]
+    require_guard(ctx, rep, "S2", oe, "TrialSchedulerWithSearcher.on_trial_error: searcher.evaluation_failed | a searcher exists", nodes,
+                  [("self.searcher is not None", lambda a: a[0] == "is" and a[1] == "self.searcher" and a[3] is False)],
+                  "the searcher is not told about the failure (the failed configuration is not black-listed, its pending evaluation stays)")
+    otr = ctx.P.method("HyperbandBracketManager", "on_task_remove")
+    nodes = [n for n, c in call_nodes(ctx, otr, lambda c: fn_name(c) == "on_task_remove")]
+    require_guard(ctx, rep, "S3", otr, "HyperbandBracketManager.on_task_remove: the rung system is told | the trial is registered", nodes,
+                  [("trial_id in self._task_info", lambda a: a[0] == "in" and a[2] == "self._task_info" and a[3] is True)],
+                  "the rung system keeps the record of a removed trial (or is asked to remove an unknown one)")
+    ef = ctx.P.method("StochasticAndFilterDuplicatesSearcher", "evaluation_failed")
+    nodes = [n for n, c in call_nodes(ctx, ef, lambda c: fn_name(c) == "add" and "_excl_list" in U(c.func.value))]
+    require_guard(ctx, rep, "S4", ef, "StochasticAndFilterDuplicatesSearcher.evaluation_failed: black-list | duplicates allowed and the trial's configuration is known", nodes,
+                  [("self._allow_duplicates", lambda a: a[0] == "truth" and a[1] == "self._allow_duplicates" and a[2] is True),
+                   ("trial_id in self._config_for_trial_id", lambda a: a[0] == "in" and a[2] == "self._config_for_trial_id" and a[3] is True)],
+                  "with allow_duplicates=True the failed configuration is not black-listed and can be suggested again")
     # the NaN record of a failed job carries the identity of the pending slot it stands for (the bracket checks it)
     rf = ctx.P.method("SynchronousHyperbandScheduler", "_report_as_failed")
     mk = [x for x in walk_shallow(rf.node) if isinstance(x, ast.Call) and fn_name(x) == "SlotInRung"]
